@@ -6,6 +6,13 @@ import vp
 
 def run(pid, path, seed):
     rec = json.load(open(path))
+    why = rec.get("why") if isinstance(rec.get("why"), dict) else {}
+    if why.get("module") == "Trace_Det" or not rec.get("events") or not isinstance(rec["events"][0], dict) \
+            or ("ev" not in rec["events"][0] and "op" not in rec["events"][0]):
+        # a determinism / timing observation (or an abnormal exit of a concurrent run) is a relation between several
+        # executions: it is replayed by running the property's quick check again
+        import subprocess, sys
+        return subprocess.call([os.path.join(vp.ROOT, "bin", "check"), pid, "quick"])
     ctx = vp.Ctx(pid, "quick", seed)
     vp.build_harness()
     evs = rec["events"]
@@ -13,8 +20,16 @@ def run(pid, path, seed):
     cases = os.path.join(d, "cases.ndjson")
     first = evs[0]
     with open(cases, "w") as f:
-        if first.get("ev") == "Begin":
+        if first.get("ev") == "Begin" and "case" in first:
             f.write(json.dumps(first["case"]) + "\n")
+        elif first.get("ev") == "Begin":
+            # the request exactly as the library received it (its signature is literal in it), the configuration and the
+            # provider script are all in the Begin event
+            env = first["env"]
+            leak = any(e.get("ev") in ("Log", "Render") for e in evs)
+            f.write(json.dumps({"op": "req", "id": first.get("id", 0), "method": env["method"], "uri": env["uri"],
+                                "version": env.get("version", "HTTP/1.1"), "headers": env["hdrs"], "body": env["body"],
+                                "cfg": first["cfg"], "script": first["script"], "sign": "none", "leak": leak}) + "\n")
         else:
             c = {k: v for k, v in first.items() if k not in ("res", "out", "kind", "code", "status", "msg")}
             f.write(json.dumps(c) + "\n")
